@@ -298,6 +298,9 @@ def order_kind(node):
             continue
         break
     if isinstance(n, ast.Call) and dotted(n.func) in CANONICAL:
+        # sorted(..., key=f) / reverse=True is an order, but not THE sorted order of the values (key=str puts 10 before 9)
+        if any(k.arg in ("key", "reverse") and not (isinstance(k.value, ast.Constant) and k.value.value in (None, False)) for k in n.keywords):
+            return "sorted-by-key"
         return "canonical"
     if isinstance(n, ast.Name) and n.id in ("levels",):
         return "declared"
